@@ -23,25 +23,25 @@ P = {
          "Every listed boundary x fault kind for each sampled case; not every instruction.", "A fault inside a pure computation step behaves like one at its entry (nothing written yet)."),
  "C09": ("exploration", "independent decision applier + schema validation + ordering oracle on decisions from merge_notebooks",
          "Held on generated triples.", "vmon/refapply.py encodes docs/source/merging.rst."),
- "C10": ("exploration", "differential monitor: use-X strategy run vs relabelled mergetool decisions applied",
+ "C10": ("exploration", "differential monitor: use-X strategy run (whole-notebook and split merge/input/output variants) vs relabelled mergetool decisions applied; line provenance of merged sources",
          "Held on generated conflicting triples.", "Both sides of the comparison are produced by the real code."),
  "C11": ("exploration", "structural well-formedness checker + schema + JSON round trip on every diff returned and every diff embedded in decisions",
          "Held on all diffs observed.", "Checker vmon/refdiff.py encodes the documented format."),
  "C12": ("exploration", "fresh-interpreter differential replay (documents re-ordered member-wise) of every diff/merge op of hostile in-process histories (wide documents, configure-after-use, both directions of threshold-straddling pairs, revision chains) + global-state watcher",
          "Held on generated histories.", "Fresh process gets same env, PATH, hash seed."),
- "C13": ("exploration", "snapshot/compare of every argument around every public call + aliasing probe on results",
+ "C13": ("exploration", "snapshot/compare of every argument around every public call (diff, patch, merge, decide, apply, printers; also caller-ordered diffs and decisions) + aliasing probe on results",
          "Held on monitored calls.", "Canonical JSON sorts keys: key order is not content."),
- "C14": ("exploration", "path classifier over the diff tree + projected round trip, all 64 ignore subsets x 3 configuration routes",
+ "C14": ("exploration", "path classifier over the diff tree + projected round trip, all 64 ignore subsets x 5 configuration routes (positive / negative flags, Ignore mapping direct and via config file, category booleans of a config file through plain and sub-command entry points) + key-list filters",
          "All 64 x 3 configurations, sampled pairs.", "Category->path table from CLI help/docs."),
  "C15": ("translation_validation", "same (base,diff)/(base,decisions) run through Python and the real TypeScript sources (node 22 type stripping), results compared",
          "Each case is one program through both implementations.", "Needs Node >= 22.13 on the image; loader elides type-only imports as tsc does; @lumino/coreutils and json-stable-stringify stubbed."),
  "C16": ("exploration", "never-raises + output oracles (silent on empty, action line when touched, no ESC without colour) on pretty_print_* over configurations x renderers",
          "Held on renderings observed.", "git config isolated."),
- "C17": ("exploration", "changed_notebooks/nbdiff vs git CLI on generated repositories; cwd watcher",
+ "C17": ("exploration", "changed_notebooks/nbdiff vs git CLI on generated repositories (clean filters, mode-only changes, refs named like paths, tracked paths turned into directories / directories into files, absolute filters); cwd watcher; CLI sequences in one process",
          "Held on generated repositories/ref pairs/cwds.", "git CLI is ground truth."),
- "C18": ("exploration", "before/after snapshots of git config + attributes + file tree around real config commands against real git",
+ "C18": ("exploration", "before/after snapshots of git config + attributes + file tree around real config commands against real git (both scopes, XDG modes, repository layouts, hand-registered drivers, foreign tools named like nbdime)",
          "Sequences up to length 3 over sampled initial states; --system scope not exercised.", "HOME/XDG isolated; stubs for jupyter_server/jinja2."),
- "C19": ("exploration", "executable model of docs/source/config.rst vs build_config / real parsers / --config listing",
+ "C19": ("exploration", "executable model of docs/source/config.rst vs build_config / real parsers (all flag spellings argparse accepts) / --config listing, over layered config files",
          "Held on generated layouts.", "Model written from the docs, never imports nbdime.config."),
  "C20": ("exploration", "in-process tornado server (real handlers, stub jupyter_server/jinja2), HTTP client-boundary history, disk snapshots, audit hooks",
          "Held on generated request sequences per mode.", "Stub JupyterHandler/APIHandler are thin tornado handlers."),
